@@ -7,6 +7,7 @@
   here exactly, with unbounded `Nat`/`Int` arithmetic on the bit pattern.
 -/
 import JsonataModel.Model.Basic
+import JsonataModel.Model.Decimal
 
 namespace Jsonata.FloatNum
 
@@ -142,6 +143,47 @@ def jsonNumber (x : Float) : String :=
     else
       sign ++ digitsToString (ds.take dp.toNat) ++ "." ++ digitsToString (ds.drop dp.toNat)
 
+/-- shortest round-trip decimal of a finite double as a signed mantissa and exponent -/
+def toDecimal (x : Float) : Int × Int :=
+  if x == 0 || !isFinite x then (0, 0)
+  else
+    let (s, m, e) := decode x
+    let bits := x.toBits.toNat
+    let boundary := bits % 2^52 == 0 && (bits / 2^52) % 2048 > 1
+    let (ds, dp) := shortestDigits m e boundary
+    let mant : Nat := ds.foldl (fun a d => a * 10 + d) 0
+    ((if s then -(mant : Int) else mant), dp - ds.length)
+
+/-- the double nearest to m · 10^e (ties to even; overflow gives ±Inf) -/
+def ofDecimal (m e : Int) : Float :=
+  if m == 0 then 0.0 else
+  let a := m.natAbs
+  let digits : Int := (Nat.toDigits 10 a).length
+  let r : Float :=
+    if digits + e > 400 then (1.0 / 0.0)
+    else if digits + e < -400 then 0.0
+    else
+      match (if e ≥ 0 then Decimal.roundRatio (a * 10 ^ e.toNat) 1 else Decimal.roundRatio a (10 ^ (-e).toNat)) with
+      | some x => x
+      | none => (1.0 / 0.0)
+  if m < 0 then -r else r
+
+/-- strconv.FormatFloat(|x|, 'f', dp, 64): exact value rounded half-even to dp digits -/
+def fixedString (x : Float) (dp : Nat) : String :=
+  if x.isNaN then "NaN" else if x.isInf then "+Inf" else
+  let (_, m, e) := decode x
+  -- |x| · 10^dp = m · 2^e · 10^dp  as num/den
+  let num := if e ≥ 0 then m * 2 ^ e.toNat * 10 ^ dp else m * 10 ^ dp
+  let den : Nat := if e ≥ 0 then 1 else 2 ^ (-e).toNat
+  let q := num / den
+  let r := num % den
+  let n := if 2 * r > den then q + 1 else if 2 * r < den then q else (if q % 2 == 0 then q else q + 1)
+  let ds := Nat.toDigits 10 n
+  let ds := if ds.length ≤ dp then List.replicate (dp + 1 - ds.length) '0' ++ ds else ds
+  let ip := ds.take (ds.length - dp)
+  let fp := ds.drop (ds.length - dp)
+  String.ofList ip ++ (if dp == 0 then "" else "." ++ String.ofList fp)
+
 end Jsonata.FloatNum
 
 namespace Jsonata
@@ -163,5 +205,11 @@ instance : NumSys Float where
   ofInt := Float.ofInt
   toInt := toIntExact
   toText := jsonNumber
+  ceil := Float.ceil
+  toDec := toDecimal
+  ofDec := ofDecimal
+  fixed := fixedString
+  pow := Float.pow
+  sqrt := Float.sqrt
 
 end Jsonata
